@@ -106,6 +106,11 @@ pub fn compare(got: &Flat, want: &RefOut, tol: &Tol, skip: &dyn Fn(&str) -> bool
                 }
             }
             None => {
+                // a reported exact zero without expected counterpart (e.g. a service or carrier key whose
+                // values are all zero) carries no energy
+                if *g == 0.0 {
+                    continue;
+                }
                 diffs.push(Diff { path: p.clone(), got: Some(*g), want: None, norm: f64::INFINITY });
             }
         }
@@ -114,7 +119,7 @@ pub fn compare(got: &Flat, want: &RefOut, tol: &Tol, skip: &dyn Fn(&str) -> bool
         if skip(p) || got.contains_key(p) {
             continue;
         }
-        if lenient_missing(p) && tol.ok(0.0, *w) {
+        if (lenient_missing(p) && tol.ok(0.0, *w)) || w.v == 0.0 {
             continue;
         }
         diffs.push(Diff { path: p.clone(), got: None, want: Some(*w), norm: f64::INFINITY });
@@ -192,10 +197,7 @@ pub fn cross_eval_band(path: &str, rf: &RefOut) -> f64 {
     if path.starts_with("balance_cr.") || path == "k_exp" || path == "arearef" {
         return 0.0;
     }
-    let s = match path {
-        "rer_nrb" | "rer_onst" => rf.get("rer").map(|v| 4.0 * v.s),
-        _ => rf.get(path).map(|v| v.s),
-    };
+    let s = rf.get(path).map(|v| v.s);
     match s {
         Some(s) if s.is_finite() => 1e-9 + 1.5e-6 * s,
         Some(_) => f64::INFINITY,
@@ -208,4 +210,18 @@ pub fn same_across_evals(path: &str, a: f64, b: f64, rf: &RefOut) -> bool {
         return true;
     }
     (a - b).abs() <= cross_eval_band(path, rf)
+}
+
+/// cancellation scale of a field for relational comparisons (from the reference evaluation of the base case)
+pub fn scale_of(path: &str, rf: &RefOut, fallback: f64) -> f64 {
+    rf.get(path).map(|v| v.s).unwrap_or(fallback.abs())
+}
+
+/// value of a field in a flattened result, where a by-carrier key that is not listed means 0
+pub fn value_or_zero(f: &Flat, p: &str) -> Option<f64> {
+    match f.get(p) {
+        Some(v) => Some(*v),
+        None if lenient_missing(p) => Some(0.0),
+        None => None,
+    }
 }
